@@ -1,5 +1,6 @@
 import Adlt.Chain.Refine
-/-! # C20 — archives: volumes read as one file (chain part)
+import Adlt.Zip.Proofs
+/-! # C20 — archives: volumes read as one file; extraction faithful and confined
 
 Model: `Chn.Chain` (= `SeekableChain` over readers with their own positions). Contract: `Chn.contractOk`
 (the `Read`/`Seek` contract of one object holding the concatenation; short reads legal). -/
@@ -22,6 +23,38 @@ theorem C20_read_progress (c : Chain) (hi : Inv c) (k : Nat) (hk : 0 < k) (hp : 
   rcases Nat.eq_zero_or_pos (c.read k).1.length with h | h
   · rcases r.nonempty h with h2 | h2 <;> omega
   · exact h
+
+/-! ## extraction (`Zipm`: model of `extract_archives` / `extract_to_dir`; glob matcher and archive reader are parameters) -/
+
+/-- **confinement**: whatever the member name, a name the `enclosed_name` walk accepts, joined onto any directory,
+    resolves (lexically: `.`, `..`, empty parts) to a path below that directory; and only such names are ever written -/
+theorem C20_extract_confined (base : List String) (name : String) (h : (Zipm.enclosedName name).isSome = true) :
+    ∃ rel, Zipm.resolve base (Zipm.comps name) = base ++ rel := by
+  cases he : Zipm.enclosedName name with
+  | none => simp [he] at h
+  | some e => exact Zipm.confined base _ (Zipm.enclosedName_some name e he).2
+
+/-- every extracted file is a file member of the archive that has an enclosed name and is in the files filter, and its
+    content is the member's content -/
+theorem C20_extract_sound (filter : List String) (rm : Option (String × String)) (ms : List Zipm.Member) (n : String) (d : List UInt8)
+    (h : (n, d) ∈ Zipm.extract filter rm ms) :
+    ∃ m ∈ ms, ∃ e, m.enclosed = some e ∧ filter.contains e = true ∧ m.kind = .file ∧ n = Zipm.renamed rm e ∧ d = m.data :=
+  Zipm.mem_extract filter rm ms n d h
+
+/-- **exactness**: for every pattern matcher, exactly the file members that match the pattern (by name or by glob) and
+    whose names do not lead outside are extracted and reported, each once, in archive order (archives other than the
+    single-entry `data` case; the reader hands out the stored name as enclosed name) -/
+theorem C20_extract_exact (pat : String) (g : String → Bool) (stem : String) (ms : List Zipm.Member)
+    (hd : ms.map (·.name) ≠ ["data"])
+    (he : ∀ m ∈ ms, m.enclosed = none ∨ m.enclosed = some m.name) :
+    (Zipm.extractArchive pat g stem (ms.map (·.name)) ms).map (·.1) = (ms.filter (Zipm.Spec.selected pat g)).map (·.name) :=
+  Zipm.extract_exact pat g stem ms hd he
+
+/-- non-vacuity: hostile names (`../evil.dlt`, `/etc/hostname`) are refused by the walk, a harmless `..` inside
+    (`dir/../x.dlt`) is accepted and stays below the directory -/
+example : Zipm.staysInside [.parent, .normal "evil.dlt"] = false ∧ Zipm.staysInside [.root, .normal "etc", .normal "hostname"] = false ∧
+    Zipm.staysInside [.normal "dir", .parent, .normal "x.dlt"] = true := by decide
+example : Zipm.resolve ["tmp", "t1"] [.normal "dir", .parent, .normal "x.dlt"] = ["tmp", "t1", "x.dlt"] := rfl
 
 /-- non-vacuity: the former defects (empty middle volume; seek past the end) under the fixed model -/
 example : (Chain.new [[1, 2], [], [3, 4]]).run [.read 8, .read 8, .seekEnd 2, .read 1, .seekCur (-9)]
